@@ -195,6 +195,23 @@ CLAIMED["C16"] = (
     "Trusted: Lean kernel; standard axioms; harness (twin construction); astropy units/coordinates (modelled). Runtime behaviour not modelled: float rounding of unit conversion (1e-11 relative).",
     "Lean 4 proofs over lists/rationals for arbitrary numeric transforms + differential and twin (metamorphic) correspondence", "DESIGN.md §6 C16")
 
+CLAIMED["C09"] = (
+    "Lean 4 theorems on the converter logic of gwcs/converters/wcs.py (which keys are written under which condition, which are read back "
+    "and handed to the constructor): for every non-Stokes frame of any kind and any field values the node written is read back to the same "
+    "frame whatever the constructor defaults are (leaf_roundtrip; reference_position via upper(lower p) = p over the standard positions, "
+    "decide +kernel); Stokes frames round-trip exactly when the unwritten fields are defaults and provably not otherwise "
+    "(stokes_roundtrip_partial, stokes_full_fails = recorded finding D16); lifted by induction to nested composite frames and the whole WCS "
+    "node - name, pixel shape, frame sequence, per-step transform (tree_roundtrip, wcs_roundtrip); rewriting the re-read object gives the "
+    "same tree (tree_idempotent, stokes_tree_idempotent); selector nodes keep the label->transform association for any dict order "
+    "(selector_roundtrip); positional construction binds each key to its own parameter iff the call follows the signature order "
+    "(positional_binding, positional_swap_detected). PARTIAL: asdf, asdf-astropy, YAML, schema validation, block storage and pickle are "
+    "runtime behaviour: exercised, not modelled. Tied to gwcs by (i) exact correspondence of the real converters' to_yaml_tree / "
+    "from_yaml_tree with the model on generated frames and selector nodes, (ii) real round trips of frames, package models and whole WCSs "
+    "through buffer/file x lazy_load x memmap x ASDF standard 1.5/1.6 x gwcs manifests 1.0.1-1.4.0, second write compared as a canonical "
+    "YAML graph, deepcopy and pickle incl. mutation independence; all fields and numerics (forward, backward, every frame pair) compared.",
+    "Trusted: Lean kernel; standard axioms; harness (field extraction, YAML canonicalisation). Runtime behaviour not modelled: asdf/asdf-astropy/YAML/pickle; last-bit parameter changes of astropy rotation models (1e-12).",
+    "Lean 4 proofs (case analysis + structural induction over nested frames) + exact converter-level correspondence + real round-trip comparison", "DESIGN.md §6 C09")
+
 NOT_YET = "check not built yet in this round; will be claimed once its Lean model, theorems and correspondence run green"
 
 
